@@ -5,7 +5,7 @@ CONSTANTS
   VarAlpha <- AlphaFull
   BasicAlpha <- Basic
   MaxFree = 2
-  MaxBasic = 4
+  MaxBasic = 3
   MaxUniform = 27
   Periods <- PeriodsAll
   Statuses = {}
